@@ -81,4 +81,22 @@ theorem parseNode_element_text (e : BEnv) (Γ : Ctx) (cfg : ParserConfig) (m : X
     parseNode e Γ cfg (.element m ats ns d xt xn) (.node q a n t' c tl) := by
   simp [parseNode, bindText, hm, XmlMeta.findAnyWildcard, hw]
 
+/-- indentation: `ws₀` becomes the text of the element, every child without significant
+tail gets the tail `ws` -/
+def indentKid (e : Env) (ws : Str) : Tree → Tree
+  | .node q a n t c tl => .node q a n t c (if (normalizeContent e tl).isNone then some ws else tl)
+
+def indent (e : Env) (ws₀ ws : Str) : Tree → Tree
+  | .node q a n _ c tl => .node q a n (some ws₀) (c.map (indentKid e ws)) tl
+
+theorem kidsEq_indent (e : Env) (ws : Str) (hws : e.strip ws = []) :
+    ∀ kids : List Tree, KidsEq e kids (kids.map (indentKid e ws))
+  | [] => .nil
+  | .node q a n t c tl :: rest => by
+    refine .cons ?_ (kidsEq_indent e ws hws rest)
+    refine .mk q a n t c tl _ ?_
+    cases h : normalizeContent e tl with
+    | none => simp [normalizeContent_ws e ws hws]
+    | some s => simp [h]
+
 end Proofs.C09
